@@ -770,3 +770,44 @@ def cwrap_bits_concrete(p, m):
         if bad:
             return False, '%s(%r, %d, %r) returned parts with %s bits' % (fn, z, prec, rnd, [c[3] for c in parts])
     return None, 'UNCONFIRMED: the sampled arguments give at most %d bits' % prec
+
+
+# ------------------------------------------------------------------------------ gamma next to its pole at 0
+def gamma_pole(p):
+    """mpf_gamma(x, prec, rnd) for x = +-2**-k: gamma(x) = 1/x - 0.5772... + O(x), so for k >= prec + 3 the exact value lies
+    strictly between the representable 2**k and its neighbour toward zero... (x > 0: just BELOW 2**k; x < 0: just below -2**k,
+    i.e. larger in magnitude).  `k` symbolic in the range of the pole shortcut (mag < -wp); `kfix` pins a concrete k (used for
+    the boundary mag == -wp .. -wp+2, where the general algorithm runs -- too deep for the interpreter, so only the native
+    replay exists there)."""
+    from mpmath.libmp import gammazeta
+    from vlib.oracle import ref_round
+    prec, rnd, sign = p['prec'], p['rnd'], p['sign']
+    if 'kfix' in p:
+        raise Unsupported('concrete boundary exponent: native replay only')
+    ob = Ob(wbump(p, prec + 120), timeout_s=p.get('_t', 60))
+    k = ob.int('k', prec + 22, prec + 90)
+    x = (sign, 1, V.neg(k), 1)
+    outs = ob.run(gammazeta.mpf_gamma, [x, prec, rnd])
+    S = prec + 3
+    # |value| = 2**k -/+ (less than one): at scale 2**(k - S):  A = 2**S - 1 (x > 0) or 2**S (x < 0), sticky
+    A = (B(1) << S) - (B(0) if sign else B(1))
+    neg = z3.BoolVal(bool(sign))
+    R = ref_round(A, TRUE, prec, rnd, neg, S, S + 1)
+
+    def good(val, st):
+        if not (isinstance(val, tuple) and len(val) == 4):
+            return False
+        return value_matches(val, neg, R, zt(k) - B(S), S + 4, prec)
+    return finish(ob, ob.prove(outs, good))
+
+
+def gamma_pole_concrete(p, m):
+    from fractions import Fraction
+    from mpmath.libmp import gammazeta
+    prec, rnd, sign = p['prec'], p['rnd'], p['sign']
+    k = p.get('kfix', m.get('k') if m else None)
+    x = (sign, 1, -k, 1)
+    r = gammazeta.mpf_gamma(x, prec, rnd)
+    exact = (Fraction(2) ** k) * (-1 if sign else 1) - Fraction(5772, 10000)      # any value in (0, 1) in place of Euler's constant gives the same rounding
+    ok, det = O.check_rounded(r, exact, prec, rnd)
+    return ok, 'mpf_gamma(%s2**-%d, %d, %r): gamma(x) = 1/x - 0.5772... lies just below %s2**%d; %s' % ('-' if sign else '', k, prec, rnd, '-' if sign else '', k, det[:200])
